@@ -54,6 +54,10 @@ type pScenario struct {
 	ConstCols []string
 	Scalars []pScalar
 	Run     func(ctx context.Context, store *ledgerstore.Store) error
+	// Run2, when set, calls the method again with other argument values and
+	// another number of rows: the template obtained from it must be the same text
+	// (the rendering depends on the arguments only through the literals).
+	Run2 func(ctx context.Context, store *ledgerstore.Store) error
 }
 
 func tsLit(t libtime.Time) string {
@@ -403,10 +407,22 @@ func CaptureParametric() ([]*pResult, error) {
 					ledger.AccountsVolumes{Account: "acc:a", Asset: "USD", Input: big.NewInt(100), Output: big.NewInt(7)},
 					ledger.AccountsVolumes{Account: "acc:b", Asset: "EUR", Input: big.NewInt(3), Output: big.NewInt(100)})
 				return err
+			},
+			Run2: func(ctx context.Context, s *ledgerstore.Store) error {
+				huge, _ := new(big.Int).SetString("340282366920938463463374607431768211456", 10)
+				_, err := s.UpdateVolumes(ctx,
+					ledger.AccountsVolumes{Account: "x", Asset: "COIN", Input: huge, Output: big.NewInt(0)},
+					ledger.AccountsVolumes{Account: "y:1", Asset: "USD/2", Input: big.NewInt(0), Output: big.NewInt(1)},
+					ledger.AccountsVolumes{Account: "z", Asset: "EUR", Input: big.NewInt(5), Output: big.NewInt(6)})
+				return err
 			}},
 		{Name: "GetBalances", RowType: "BalanceRow", ConstCols: []string{"input", "output"}, Doc: "GetBalances(pairs): insert zero rows (ON CONFLICT DO NOTHING) and SELECT … FOR UPDATE; `rows` sorted by (account, asset)",
 			Run: func(ctx context.Context, s *ledgerstore.Store) error {
 				_, err := s.GetBalances(ctx, ledgerstore.BalanceQuery{"acc:a": {"EUR", "USD"}})
+				return err
+			},
+			Run2: func(ctx context.Context, s *ledgerstore.Store) error {
+				_, err := s.GetBalances(ctx, ledgerstore.BalanceQuery{"world": {"A", "B", "C"}})
 				return err
 			}},
 		{Name: "InsertMoves", RowType: "MoveRow", Doc: "InsertMoves(moves…)",
@@ -415,6 +431,13 @@ func CaptureParametric() ([]*pResult, error) {
 				return s.InsertMoves(ctx,
 					&ledger.Move{TransactionID: 11, IsSource: true, Account: "acc:a", Amount: (*bigIntAlias)(big.NewInt(100)), Asset: "USD", InsertionDate: t2, EffectiveDate: t1, PostCommitVolumes: &v1},
 					&ledger.Move{TransactionID: 12, IsSource: true, Account: "acc:b", Amount: (*bigIntAlias)(big.NewInt(50)), Asset: "EUR", InsertionDate: t3, EffectiveDate: t2, PostCommitVolumes: &v2})
+			},
+			Run2: func(ctx context.Context, s *ledgerstore.Store) error {
+				v := ledger.NewVolumesInt64(9, 8)
+				return s.InsertMoves(ctx,
+					&ledger.Move{TransactionID: 1, IsSource: true, Account: "p", Amount: (*bigIntAlias)(big.NewInt(1)), Asset: "X", InsertionDate: t1, EffectiveDate: t1, PostCommitVolumes: &v},
+					&ledger.Move{TransactionID: 2, IsSource: true, Account: "q", Amount: (*bigIntAlias)(big.NewInt(2)), Asset: "Y", InsertionDate: t2, EffectiveDate: t2, PostCommitVolumes: &v},
+					&ledger.Move{TransactionID: 3, IsSource: true, Account: "r", Amount: (*bigIntAlias)(big.NewInt(3)), Asset: "Z", InsertionDate: t3, EffectiveDate: t3, PostCommitVolumes: &v})
 			}},
 		{Name: "UpsertAccounts", RowType: "AccountRow", Doc: "UpsertAccounts(accounts…) with explicit dates",
 			Run: func(ctx context.Context, s *ledgerstore.Store) error {
@@ -525,6 +548,21 @@ func CaptureParametric() ([]*pResult, error) {
 		r, err := parametrise1(sc, stmts)
 		if err != nil {
 			return nil, err
+		}
+		if sc.Run2 != nil {
+			srv.ResetLog()
+			func() {
+				defer func() { _ = recover() }()
+				_ = sc.Run2(ctx, store)
+			}()
+			r2, err := parametrise1(sc, srv.Log())
+			if err != nil {
+				return nil, fmt.Errorf("%s (second call): %w", sc.Name, err)
+			}
+			if strings.Join(r.Stmts, "\n") != strings.Join(r2.Stmts, "\n") || fmt.Sprint(r.RowFields) != fmt.Sprint(r2.RowFields) {
+				return nil, fmt.Errorf("%s: the statement rendered for other arguments is not an instance of the same template:\n%s\n--- vs ---\n%s",
+					sc.Name, strings.Join(r.Stmts, "\n"), strings.Join(r2.Stmts, "\n"))
+			}
 		}
 		out = append(out, r)
 	}
